@@ -5,6 +5,7 @@ skipp (Z1), null checks (DN)."""
 from facts import AnalysisBroken, walk, children, strip, strip_all_casts, member_path
 from core import short
 import flow
+import re
 from flow import fmt_events
 from roles import field_root, FILE
 from rules_pipeline import expr_str, methods_of, resolve_alias, deep_resolve, flat_nodes
@@ -786,6 +787,14 @@ def H1(F, rep, FL):
                 if stray:
                     bad = ('%s is updated (line %s) on a path that commits no %s' % (counter, stray[0].get('l'), kind), evs)
                     break
+                # ... and a container that was taken out of the file is handed on (and counted): the writer counted every container it
+                # stored, empty ones included - a reader that steps over some of them ends with other totals than the header states
+                taken_ = [e for e in evs if e['ev'] == 'call' and e['n'].get('callee') == 'Vector::BLF::LogContainer::read' and
+                          any(field_root(member_path(a)) == 'm_compressedFile' for a in e['n'].get('args', []))]
+                if q == C2U and taken_:
+                    bad = ('a log container read from the file (line %s) is dropped on a path that returns normally: it is neither handed on nor counted'
+                           % taken_[0].get('l'), evs)
+                    break
                 continue
             n += 1
             bumps = [e for e in evs if e['ev'] == 'assign' and _assign_target(e['n']) == counter]
@@ -1055,11 +1064,11 @@ def F3F4(F, rep, FL):
         if not cs:
             continue
         n += 1
-        br = [e for e in evs if e['ev'] == 'branch' and any(x.get('name') == 'compressionLevel' for x in walk(e['n']))]
+        br = [e for e in evs if e['ev'] == 'branch' and any(x.get('name') == 'compressionLevel' for x in walk(deep_resolve(e['n'], fn)))]
         if len(cs) != 1 or not br:
             bad = 'no branch on compressionLevel / several compress calls'
             break
-        c = br[0]['n']
+        c = deep_resolve(br[0]['n'], fn)
         cc = strip(c)
         is_eq0 = isinstance(cc, dict) and cc.get('k') == 'Bin' and cc.get('op') in ('==', '!=') and any(strip_all_casts(x).get('v') == 0 for x in (cc['lhs'], cc['rhs']))
         if not is_eq0:
@@ -1068,7 +1077,7 @@ def F3F4(F, rep, FL):
         zero_side = br[0]['taken'] == (cc['op'] == '==')
         a = cs[0]['n']['args']
         m = strip_all_casts(a[0]).get('v')
-        lvl = strip_all_casts(a[1])
+        lvl = strip_all_casts(deep_resolve(a[1], fn))
         if zero_side and m != 0:
             bad = 'level 0 is stored with method %s' % m
             break
@@ -1171,6 +1180,53 @@ def F7(F, rep):
                    nontrivial=True)
 
 
+def F8(F, rep, FL):
+    """the bytes reach the file in the order of the write() calls: CompressedFile::write hands (s, n) to the stream on every path; if the
+    class collects bytes in a member first, no path may write straight to the stream while collected bytes are pending (a flush - a stream
+    write out of a member - has to come first on that path).  LogContainer::write emits the 32 byte container header field by field and the
+    payload in one piece: a short cut for large pieces puts the payload in front of its own header"""
+    fn = None
+    for f in F.functions.get('Vector::BLF::CompressedFile::write', []):
+        if len(f.get('params', [])) == 2:
+            fn = f
+    if fn is None:
+        raise AnalysisBroken('CompressedFile::write(const char *, std::streamsize) vanished')
+    rep.count('F8')
+    sid = fn['params'][0]['id']
+    helpers_flush = set()
+    for h in methods_of(F, 'Vector::BLF::CompressedFile'):
+        if h.get('access') == 2 and any(x.get('k') == 'Call' and x.get('fn') == 'write' and (member_path(x.get('obj')) or (None,))[-1] == 'm_file'
+                                        for x in walk(h['body'])):
+            helpers_flush.add(h['name'])
+    bad = None
+    n = 0
+    keeps = False
+    plist = [(evs, out) for evs, out in FL.paths(fn, follow=()) if out in ('normal', 'return')]
+    for evs, out in plist:
+        for e in evs:
+            if e['ev'] == 'call' and e['n'].get('ck') == 'member' and e['n'].get('fn') in ('insert', 'push_back', 'append', 'assign', 'emplace_back', 'resize'):
+                mp = member_path(e['n'].get('obj'))
+                if mp and mp[-1] not in ('m_file', 'm_mutex'):
+                    keeps = True
+    for evs, out in plist:
+        n += 1
+        direct = [i for i, e in enumerate(evs) if e['ev'] == 'call' and e['n'].get('fn') == 'write' and (member_path(e['n'].get('obj')) or (None,))[-1] == 'm_file' and
+                  e['n'].get('args') and local_id(deep_resolve(e['n']['args'][0], fn)) == sid]
+        flush = [i for i, e in enumerate(evs) if e['ev'] == 'call' and ((e['n'].get('callee') in helpers_flush) or
+                 (e['n'].get('fn') == 'write' and (member_path(e['n'].get('obj')) or (None,))[-1] == 'm_file' and e['n'].get('args') and
+                  local_id(deep_resolve(e['n']['args'][0], fn)) != sid))]
+        if not keeps and len(direct) != 1:
+            bad = 'hands its bytes to the stream %d times on a path (%s)' % (len(direct), fmt_events(evs, limit=8))
+            break
+        if keeps and direct and not [j for j in flush if j < direct[0]]:
+            bad = ('writes a piece straight to the stream (line %s) while earlier pieces may still wait in a member buffer - the bytes reach the file out of order '
+                   '(a container payload in front of its own header)' % evs[direct[0]].get('l'))
+            break
+    rep.ob('F8', 'CompressedFile::write|in-order', bad is None and n > 0, rep.fn_site(fn),
+           'CompressedFile::write passes every piece to the stream in call order (%d paths%s)' % (n, ', buffered' if keeps else '') if bad is None and n > 0 else
+           'CompressedFile::write %s' % (bad or 'has no normal path'), nontrivial=True)
+
+
 def F4s(F, rep):
     """the container size the application configures is the size the stream cuts by: File::setDefaultLogContainerSize hands its parameter
     on unchanged, UncompressedFile::setDefaultLogContainerSize stores its parameter unchanged, the getters return the member - a setter
@@ -1263,6 +1319,141 @@ def F3p(F, rep, FL):
         rep.ob('F3p', '%s|payload-provenance' % fname, bad is None and n > 0, rep.fn_site(fn),
                'LogContainer::%s: on each of the %d method paths %s is exactly what the stored method denotes' % (fname, n, dst) if bad is None and n > 0 else
                'LogContainer::%s: %s' % (fname, bad or 'no method path found'), nontrivial=True)
+
+
+def M1(F, rep, R):
+    """the session kind is decided by the in / out bits alone: every test of the open mode in File has the same outcome for `in` and for
+    `in | binary` (and for `out` / `out | trunc`).  A test by equality (m_openMode == std::ios_base::in) is right for the two spellings the
+    documentation shows only: with any companion flag neither branch runs - open() starts no workers, close() joins none"""
+    from roles import IOS_IN, IOS_OUT
+    n = 0
+    bad = []
+    for fn in methods_of(F, FILE):
+        for x in walk(fn['body']):
+            if x.get('k') != 'If':
+                continue
+            c = x.get('cond')
+            vals = {}
+            for name, base in (('in', {IOS_IN: True, IOS_OUT: False}), ('out', {IOS_IN: False, IOS_OUT: True})):
+                vals[name] = (R._eval_mode(c, dict(base, **{R._X: False})), R._eval_mode(c, dict(base, **{R._X: True})))
+            if all(v == (None, None) for v in vals.values()):
+                continue
+            n += 1
+            for name, (plain, extra) in vals.items():
+                if plain != extra:
+                    bad.append((fn, x, name))
+    rep.count('M1')
+    rep.ob('M1', 'mode-tests|bits-only', not bad and n > 0, rep.fn_site(bad[0][0], bad[0][1].get('l')) if bad else rep.fn_site(R.open_fn),
+           'all %d tests of the open mode in File depend on the in / out bits only' % n if not bad and n > 0 else
+           ('%s tests the open mode with [%s] (line %s): a session opened with std::ios_base::%s plus a companion flag (binary, trunc) takes another '
+            'branch than one opened with %s alone - workers not started / not joined' % (short(bad[0][0]['name']), expr_str(bad[0][1]['cond'])[:100], bad[0][1].get('l'),
+                                                                                        bad[0][2], bad[0][2])) if bad else 'no test of the open mode found in File',
+           nontrivial=True)
+
+
+def O6(F, rep, R):
+    """the file is opened and closed by the application thread only (open() / close()): File::close() decides by is_open() whether there
+    is a session to shut down - a worker that closes the compressed file on its way out makes close() and the destructor return without
+    stopping and joining the workers, and the std::thread members are destroyed while joinable (std::terminate)"""
+    rep.count('O6')
+    bad = []
+    n = 0
+    for q in sorted(R.threads):
+        seen = set()
+        todo = [q]
+        while todo:
+            name = todo.pop()
+            if name in seen:
+                continue
+            seen.add(name)
+            for fn in F.functions.get(name, []):
+                for x in walk(fn['body']):
+                    if x.get('k') != 'Call':
+                        continue
+                    if (x.get('callee') or '').startswith(FILE + '::') and x.get('calleeInRoot'):
+                        todo.append(x['callee'])
+                    if x.get('fn') in ('close', 'open') and field_root(member_path(x.get('obj')) or ()) == 'm_compressedFile':
+                        bad.append((fn, x, q))
+        n += len(seen)
+    rep.ob('O6', 'compressed-file|opened-and-closed-by-the-application', not bad and n >= len(R.threads) > 0, rep.fn_site(bad[0][0], bad[0][1].get('l')) if bad else None,
+           'no worker (%d functions reachable from the %d thread entries) opens or closes the compressed file' % (n, len(R.threads)) if not bad else
+           '%s, run by the worker %s, calls m_compressedFile.%s() (line %s): is_open() turns false behind the application\'s back - close() and ~File() then '
+           'return without joining the workers' % (short(bad[0][0]['name']), short(bad[0][2]), bad[0][1].get('fn'), bad[0][1].get('l')), nontrivial=True)
+
+
+def K9c(F, rep, R, FL):
+    """what the application configures between open() and its first write() is what the workers use: a worker reads the public
+    configuration members of File (compressionLevel, writeRestorePoints) only after it has taken data from the stage in front of it in the
+    same function - that hand-over (the stage's mutex) is what orders the application's assignment before the worker's read.  A value
+    fetched at thread start, or cached before the blocking read, races with that assignment and may apply the old setting to the first
+    container"""
+    CONFIG = {'compressionLevel', 'writeRestorePoints'}
+    rep.count('K9c')
+    bad = None
+    n = 0
+    for q, t in sorted(R.threads.items()):
+        if t['mode'] != 'write':
+            continue
+        seen, todo = set(), [q]
+        while todo:
+            name = todo.pop()
+            if name in seen:
+                continue
+            seen.add(name)
+            for fn in F.functions.get(name, []):
+                for x in walk(fn['body']):
+                    if x.get('k') == 'Call' and (x.get('callee') or '').startswith(FILE + '::') and x.get('calleeInRoot'):
+                        todo.append(x['callee'])
+                uses = [x for x in walk(fn['body']) if x.get('k') == 'Member' and x.get('dk') == 'field' and x.get('owner') == FILE and x.get('name') in CONFIG]
+                if not uses:
+                    continue
+                for evs, out in FL.paths(fn, follow=()):
+                    rd = [i for i, e in enumerate(evs) if e['ev'] == 'call' and e['n'].get('fn') == 'read' and field_root(member_path(e['n'].get('obj')) or ()) in R.stages]
+                    for i, e in enumerate(evs):
+                        node = e['var'].get('init') if e['ev'] == 'decl' else e.get('n')
+                        if node is None:
+                            continue
+                        if any(x.get('k') == 'Member' and x.get('dk') == 'field' and x.get('owner') == FILE and x.get('name') in CONFIG for x in walk(node)):
+                            n += 1
+                            if not rd or i < rd[0]:
+                                nm = [x['name'] for x in walk(node) if x.get('k') == 'Member' and x.get('name') in CONFIG][0]
+                                bad = bad or (fn, e.get('l'), nm, q)
+    rep.ob('K9c', 'workers|configuration-read-after-hand-over', bad is None, rep.fn_site(bad[0], bad[1]) if bad else None,
+           'the write-mode workers read compressionLevel / writeRestorePoints only behind a blocking read of the stage in front of them (%d reads on paths)' % n
+           if bad is None else
+           '%s (worker %s) reads %s at line %s before it has taken anything from the stage in front of it: nothing orders that read after an assignment the '
+           'application makes between open() and its first write() - the first container may be written with the old setting'
+           % (short(bad[0]['name']), short(bad[3]), bad[2], bad[1]), nontrivial=True)
+
+
+def O7(F, rep, FL):
+    """the hand-over of a container to the in-memory stream is final: what compressedFile2UncompressedFile() passes to
+    m_uncompressedFile.write(container) was created in that same call (a local owner initialised from new / make_shared), so the worker
+    holds no way to reach it afterwards.  A container taken from a member (a ring of reused containers, a cache) is written again by the
+    inflating worker while the decoding worker still reads it - with no lock in common"""
+    fn = F.fn(C2U)
+    rep.count('O7')
+    calls = [n for n in walk(fn['body']) if n.get('k') == 'Call' and n.get('fn') == 'write' and recv_root(n) == 'm_uncompressedFile' and n.get('args')]
+    bad = None
+    for c in calls:
+        a = strip_all_casts(c['args'][0])
+        while isinstance(a, dict) and a.get('k') == 'Construct' and len(a.get('args', [])) == 1:
+            a = strip_all_casts(a['args'][0])
+        ok = False
+        if isinstance(a, dict) and a.get('k') == 'Ref' and a.get('dk') == 'local':
+            inits = [v for d in walk(fn['body']) if d.get('k') == 'Decl' for v in d['vars'] if v['id'] == a['id']]
+            if len(inits) == 1 and '&' not in (inits[0].get('t') or '') and inits[0].get('init') is not None:
+                fresh = any((x.get('k') == 'New') or (x.get('k') == 'Call' and x.get('fn') in ('make_shared', 'make_unique')) for x in walk(inits[0]['init']))
+                members = any(x.get('k') == 'Member' and x.get('dk') == 'field' and x.get('owner') == FILE for x in walk(inits[0]['init']))
+                reass = [b for b in walk(fn['body']) if b.get('k') in ('Bin', 'Call') and b.get('op') == '=' and
+                         local_id((b.get('lhs') if b.get('k') == 'Bin' else (b.get('args') or [None])[0])) == a['id']]
+                ok = fresh and not members and not reass
+        if not ok:
+            bad = (c, expr_str(c['args'][0]))
+    rep.ob('O7', 'C2U|fresh-container', bad is None and bool(calls), rep.fn_site(fn, bad[0].get('l') if bad else None),
+           'compressedFile2UncompressedFile hands over a container it created in the same call (%d hand-over site(s))' % len(calls) if bad is None and calls else
+           ('compressedFile2UncompressedFile hands over %s, which is not a local owner of an object created in this call: the worker can reach - and refill - a '
+            'container the decoding thread is still reading' % bad[1]) if bad else 'no hand-over to the in-memory stream found', nontrivial=True)
 
 
 def F5F6(F, rep, R):
@@ -1476,6 +1667,24 @@ def offsets_u2q(F, FL):
                     # seekg(-(tellg() - (MARK + objectSize))): continue at MARK + objectSize
                     off = _declared_end_excess(strip_all_casts(n['args'][0]), decls, marks, hdr_var).add(term='objectSize')
                     info['repos'] = 'declared-end'
+                    ls_ = _lin_seek(n['args'][0], decls, marks, hdr_var)
+                    if ls_ and ls_[1]:
+                        info['narrow'] = sorted(ls_[1])
+                elif (_lin_seek(n['args'][0], decls, marks, hdr_var) or ({}, set()))[0].get('T') == -1 and \
+                        (_lin_seek(n['args'][0], decls, marks, hdr_var)[0].get('S') == 1) and \
+                        len([x for x in _lin_seek(n['args'][0], decls, marks, hdr_var)[0] if str(x).startswith('M:')]) == 1 and \
+                        len(_lin_seek(n['args'][0], decls, marks, hdr_var)[0]) == 3:
+                    # any other spelling of  MARK + objectSize - tellg()  (declared - consumed, ...): continue at MARK + objectSize
+                    cf_, nar_ = _lin_seek(n['args'][0], decls, marks, hdr_var)
+                    mk_ = [x for x in cf_ if str(x).startswith('M:')][0]
+                    if cf_[mk_] == 1:
+                        off = marks[[i_ for i_ in marks if 'M:%s' % i_ == mk_][0]].add(term='objectSize')
+                        info['repos'] = 'declared-end'
+                        if nar_:
+                            info['narrow'] = sorted(nar_)
+                    else:
+                        off = off.add(term='expr:' + expr_str(a))
+                        info['repos'] = 'expr:' + expr_str(a)
                 elif a.get('k') == 'Ref':
                     off = off.add(term='local:' + a.get('name', '?'))
                     info['repos'] = 'local:' + a.get('name', '?')
@@ -1550,6 +1759,69 @@ def _declared_end_excess(arg, decls, marks, hdr_var):
             # start mark + something that is not the declared size of the peeked header
             return marks[m_['id']].add(term='NOT-objectSize:' + expr_str(o_), k=1).add(term='objectSize', k=-1)
     return None
+
+
+_NARROW_T = re.compile(r'^(const )?(unsigned |signed )?(int|short|char|long int)$|^(const )?u?int(8|16|32)_t$|^(const )?unsigned$')
+
+
+def _lin_seek(e, decls, marks, hdr_var, depth=0):
+    """the argument of a relative seek as a linear form over  T (the get position now), M:<id> (a position mark taken earlier),
+    S (the peeked header's objectSize) and constants; -> (coefficients dict, set of narrow types the value passes through) or None"""
+    if not isinstance(e, dict) or depth > 12:
+        return None
+    k = e.get('k')
+    if k == 'Cast':
+        r = _lin_seek(e.get('sub'), decls, marks, hdr_var, depth + 1)
+        if r is None:
+            return None
+        t = (e.get('t') or '').strip()
+        if _NARROW_T.match(t) and any(x in r[0] for x in ('S', 'T')) or (_NARROW_T.match(t) and any(str(x).startswith('M:') for x in r[0])):
+            # a 32 bit unsigned size (or a 64 bit distance) squeezed into a type that cannot hold it
+            if not (t.replace('const ', '') in ('uint32_t', 'unsigned int', 'unsigned') and set(r[0]) == {'S'}):
+                r = (r[0], r[1] | {t})
+        return r
+    if k == 'Paren':
+        return _lin_seek(e.get('sub'), decls, marks, hdr_var, depth + 1)
+    if k == 'Construct' and len(e.get('args', [])) == 1:
+        return _lin_seek(e['args'][0], decls, marks, hdr_var, depth + 1)
+    if 'v' in e and k in ('Lit', 'Ref', 'Un', 'Bin', 'Sizeof', None):
+        return ({'1': e['v']}, set())
+    if k == 'Ref' and e.get('id') in marks:
+        return ({'M:%s' % e['id']: 1}, set())
+    if k == 'Ref' and e.get('id') in decls and decls[e['id']].get('init') is not None:
+        r = _lin_seek(decls[e['id']]['init'], decls, marks, hdr_var, depth + 1)
+        if r is None:
+            return None
+        t = (decls[e['id']].get('t') or '').strip()
+        if _NARROW_T.match(t) and (any(x in r[0] for x in ('T',)) or any(str(x).startswith('M:') for x in r[0]) or
+                                   ('S' in r[0] and t.replace('const ', '') not in ('uint32_t', 'unsigned int', 'unsigned'))):
+            r = (r[0], r[1] | {t})
+        return r
+    if k == 'Member' and e.get('name') == 'objectSize' and local_id(e.get('base')) == hdr_var:
+        return ({'S': 1}, set())
+    if k == 'Call' and e.get('fn') == 'tellg' and recv_root(e) == 'm_uncompressedFile':
+        return ({'T': 1}, set())
+    if k == 'Call' and str(e.get('fn') or '').startswith('operator ') and not e.get('args') and e.get('obj') is not None:
+        return _lin_seek(e['obj'], decls, marks, hdr_var, depth + 1)      # fpos -> streamoff
+    args, op = None, None
+    if k == 'Un' and e.get('op') in ('-', '+'):
+        args, op = [e['sub']], 'u' + e['op']
+    elif k == 'Bin' and e.get('op') in ('+', '-'):
+        args, op = [e['lhs'], e['rhs']], e['op']
+    elif k == 'Call' and e.get('ck') == 'operator' and e.get('op') in ('+', '-') and len(e.get('args', [])) in (1, 2):
+        args, op = e['args'], (e['op'] if len(e['args']) == 2 else 'u' + e['op'])
+    if args is None:
+        return None
+    rs = [_lin_seek(a, decls, marks, hdr_var, depth + 1) for a in args]
+    if any(r is None for r in rs):
+        return None
+    out, nar = {}, set()
+    for j, (cf, nr) in enumerate(rs):
+        sgn = -1 if (op == 'u-' or (op == '-' and j == 1)) else 1
+        for s_, c_ in cf.items():
+            out[s_] = out.get(s_, 0) + sgn * c_
+        nar |= nr
+    return ({s_: c_ for s_, c_ in out.items() if c_ != 0}, nar)
 
 
 def HS_of(F):
@@ -1682,16 +1954,28 @@ def S4(F, rep):
             if n.get('op') in ('+=', '-='):
                 deps.add('m_tellg')
     # conditions guarding the assignment also steer the result
+    cond_parm = None
     for n in walk(fn['body'], into_lambda=False):
         if n.get('k') == 'If':
             if any(a[0] is x for a in assigns for x in walk(n)):
                 collect(n['cond'])
+                # the clamp to the declared end holds for every offset: its guard compares the position with the end and nothing else
+                # (`off > 0 && pos > end` leaves the get position behind a declared end that was lowered, for backward seeks)
+                for at in [a_ for d_ in rules_pipeline.split_or(deep_resolve(n['cond'], fn)) for a_ in rules_pipeline.split_and(d_)]:
+                    prm = [x for x in walk(at) if x.get('k') == 'Ref' and x.get('dk') == 'parm']
+                    if prm and not any(x.get('k') == 'Member' and x.get('name') == 'm_fileSize' for x in walk(at)):
+                        cond_parm = (prm[0].get('name'), n.get('l'))
     off = [pn for pn in params.values()]
     need = {'m_tellg', 'param:' + (off[0] if off else 'off')}
     allowed = need | {'m_fileSize'}
     extra = sorted(deps - allowed)
     missing = sorted(need - deps)
     ok = bool(assigns) and not extra and not missing
+    if ok and cond_parm:
+        rep.ob('S4', 'seekg|relative', False, rep.fn_site(fn, cond_parm[1]),
+               'UncompressedFile::seekg: whether the new get position is limited to the declared end depends on the offset itself (%s in the test at line %s): '
+               'for the other offsets the get position can stay behind the end' % cond_parm, nontrivial=True)
+        return
     rep.ob('S4', 'seekg|relative', ok, rep.fn_site(fn),
            'UncompressedFile::seekg: the new get position is computed from the old one, the offset and the declared end only' if ok else
            'UncompressedFile::seekg: the new get position %s - skipping an unknown object no longer lands on the next object' %
@@ -1774,6 +2058,11 @@ def T1(F, rep, FL):
                 break
         else:
             end = i['end']
+            if i.get('repos') == 'declared-end' and i.get('narrow'):
+                bad = ('the step back to the declared end of the object is computed in %s: a declared size (or a distance) of 2 GiB and more turns '
+                       'negative there and the get position is moved backwards by up to 2 GiB - the same bytes are decoded again, or the signature search '
+                       'spins in released data' % '/'.join(i['narrow']))
+                break
             if i.get('repos') == 'declared-end':
                 # continue at (object start) + objectSize: needs the start mark at offset 0 and a positive lower bound on objectSize
                 if end.c != 0 or end.t != {'objectSize': 1, 'FILLER': 1}:
@@ -2322,15 +2611,25 @@ def _of_back(m):
     return False
 
 
-def _r3_starts(evs, fn, pushed):
+def _r3_starts(evs, fn, pushed, where=None):
+    """the values the appended container's filePosition is set to on this path; `where` (a list) receives, per value, the index of the
+    event at which the value was taken (the declaration of the local it was kept in, or the assignment itself)"""
     starts = []
-    for e in evs:
+    for ei, e in enumerate(evs):
         if e['ev'] != 'assign':
             continue
         n = e['n']
         lhs, rhs = (n['lhs'], n['rhs']) if n.get('k') == 'Bin' else ((n['args'][0], n['args'][1]) if len(n.get('args', [])) == 2 else (None, None))
         if lhs is not None and mname(lhs) == 'filePosition' and n.get('op') == '=' and (pushed is None or _ptr_root(lhs) == pushed):
             r_ = deep_resolve(rhs, fn)
+            taken_at = ei
+            r0 = strip_all_casts(rhs)
+            while isinstance(r0, dict) and r0.get('k') == 'Construct' and len(r0.get('args', [])) == 1:
+                r0 = strip_all_casts(r0['args'][0])
+            if isinstance(r0, dict) and r0.get('k') == 'Ref' and r0.get('dk') == 'local':
+                for dj, d in enumerate(evs[:ei]):
+                    if d['ev'] == 'decl' and d['var'].get('id') == r0.get('id'):
+                        taken_at = dj
             vals = [(r_, fn)]
             c_ = strip_all_casts(r_)
             while isinstance(c_, dict) and c_.get('k') == 'Construct' and len(c_.get('args', [])) == 1:
@@ -2354,6 +2653,8 @@ def _r3_starts(evs, fn, pushed):
                     if len(mem) == 2 and all(_of_back(x) for x in mem):
                         sx = 'END-OF-LAST'
                 starts.append(sx)
+                if where is not None:
+                    where.append(taken_at)
     return starts
 
 
@@ -2435,10 +2736,19 @@ def R3(F, rep, FL):
             if not any(e['ev'] == 'call' and e['n'] is push for e in evs):
                 continue
             npaths += 1
-            starts = _r3_starts(evs, fn, pushed)
+            where = []
+            starts = _r3_starts(evs, fn, pushed, where)
             if not (starts and all(s_ in ('m_tellp', 'END-OF-LAST') for s_ in starts)):
                 problems.append('the appended container starts at %s, which is neither the put position nor the end of the last container (path %s)'
                                 % (starts or 'an unassigned position', fmt_events(evs, limit=10)))
+                break
+            # the end of the last container is where the stream ends only once nothing covers the put position any more: taken earlier
+            # (before the partly filled container is cut) it lies behind the put position and leaves a hole
+            early = [w_ for s_, w_ in zip(starts, where) if s_ == 'END-OF-LAST' and fn.get('access') != 2 and not _r3_free(evs, w_ + 1, fn)]
+            if early:
+                problems.append('the appended container starts at the end of the last container as it was at line %s, i.e. before the container holding the put '
+                                'position was found absent or cut to it: the bytes between the put position and that end belong to no container'
+                                % evs[early[0]].get('l'))
                 break
         if npaths == 0:
             problems.append('no path reaches the push')
@@ -2780,6 +3090,44 @@ def K12(F, rep, R, FL):
                if bad is None and npaths > 0 and flags else
                '%s: %s - a worker that is still busy stops with data pending; what reaches the file depends on the interleaving' %
                (short(q), bad or ('no loop flag found' if not flags else 'no write-mode path through close()')), nontrivial=True)
+        # ... and the worker itself gives up only because its INPUT has ended.  A worker that stops on a condition of its output side
+        # (the file cannot be written any more) leaves the stage in front of it neither drained nor aborted: its producer blocks on the
+        # full buffer for ever, and close() waits for that producer
+        rep.count('K12')
+        role = 'T:' + q.split('::')[-1]
+        inputs = {c['stage'] for c in R.calls if c['role'] == role and c['method'] == 'read'}
+        stages = set(R.stages)
+        foreign = None
+
+        def scan(n, conds):
+            nonlocal foreign
+            if not isinstance(n, dict) or foreign:
+                return
+            if n.get('k') == 'If':
+                scan(n.get('then'), conds + [n['cond']])
+                scan(n.get('else'), conds + [n['cond']])
+                return
+            if n.get('k') in ('While', 'For', 'Do'):
+                scan(n.get('body'), conds)
+                return
+            tgt = _assign_target(n) if n.get('k') in ('Bin', 'Call') and n.get('op') == '=' else None
+            if tgt in flags:
+                used = set()
+                for c in conds:
+                    for x in walk(deep_resolve(c, entry)):
+                        if x.get('k') == 'Member' and x.get('dk') == 'field' and x.get('name') in stages:
+                            used.add(x['name'])
+                if used - inputs:
+                    foreign = (tgt, n.get('l'), sorted(used - inputs))
+                return
+            for ch in children(n):
+                scan(ch, conds)
+        scan(entry['body'], [])
+        rep.ob('K12', short(q) + '|ends-on-input', foreign is None and bool(inputs), rep.fn_site(entry, foreign[1] if foreign else None),
+               '%s stops only when its input (%s) has ended' % (short(q), '/'.join(sorted(inputs))) if foreign is None and inputs else
+               ('%s clears %s (line %s) on a condition of %s, which is not its input (%s): the producer in front of it keeps filling a buffer nobody '
+                'empties and blocks for ever - write() and close() never return' % (short(q), foreign[0], foreign[1], '/'.join(foreign[2]), '/'.join(sorted(inputs))))
+               if foreign else '%s: the stage it reads from was not found' % short(q), nontrivial=True)
     if n_threads < 2:
         raise AnalysisBroken('K12: expected two write-mode worker threads, found %d' % n_threads)
 
